@@ -204,3 +204,22 @@ pub fn str_eq(a: &String, b: &str) -> (r: bool)
     a == b
 }
 pub open spec fn cow_str_view(c: &Cow<'_, str>) -> Seq<char> { c@ }
+
+// ---- further std functions a change to the code may plausibly start using (so that the change is judged by the
+// contracts instead of stopping at "not supported")
+pub assume_specification[ String::len ](s: &String) -> (r: usize) ensures r == bytes(s@).len();
+pub open spec fn strip_leading(s: Seq<char>, c: char) -> Seq<char>
+    decreases s.len(),
+{
+    if s.len() > 0 && s[0] == c { strip_leading(s.skip(1), c) } else { s }
+}
+pub open spec fn strip_trailing(s: Seq<char>, c: char) -> Seq<char>
+    decreases s.len(),
+{
+    if s.len() > 0 && s[s.len() - 1] == c { strip_trailing(s.take(s.len() - 1), c) } else { s }
+}
+pub uninterp spec fn trim_start_ens<P>(s: Seq<char>, p: P, r: Seq<char>) -> bool;
+pub assume_specification<'a, P: std::str::pattern::Pattern>[ str::trim_start_matches::<P> ](s: &'a str, p: P) -> (r: &'a str)
+    ensures trim_start_ens::<P>(s@, p, r@);
+pub broadcast axiom fn axiom_trim_start_char(s: Seq<char>, c: char, r: Seq<char>)
+    requires #[trigger] trim_start_ens::<char>(s, c, r), ensures r == strip_leading(s, c);
